@@ -427,6 +427,45 @@ def GEx.validate : GEx → Bool
   | .ptile v p _ _ _ _ _ => v.isAggArgType && v.validate && p.encodedWidth == 0
   | .ptileOpt emb _ _ => emb.validate
 
+/-! ### Sender side: who owns the bytes `Marshal` returned
+
+gRPC's HTTP/2 transport (google.golang.org/grpc, `http2Client.Write`/`http2Server.Write`)
+copies the first 16 KB of a marshalled message into its frame header buffer and keeps the
+rest of the slice by reference in the control buffer; a writer goroutine puts it on the wire
+later, when flow control allows.  The sending goroutine meanwhile marshals the next message
+of the stream.  The model: a heap of buffers; `Marshal` writes a message into a buffer and
+hands its id to the transport; the transport reads the buffers only after all messages of
+the stream have been marshalled (the latest it may).  rpc/msgpack_codec.go `Marshal`
+returns what `msgpack.Marshal` allocated: policy `fresh`.  A codec that encodes into a
+recycled buffer (sync.Pool, package-level scratch) is policy `reused`. -/
+
+inductive BufPolicy
+  | fresh      -- every call allocates its output
+  | reused     -- every call writes into the same recycled buffer (id 0)
+  deriving DecidableEq, Repr, Inhabited
+
+/-- one `Marshal`: new heap and the id of the buffer handed to the transport -/
+def marshalInto (p : BufPolicy) (heap : List Wire) (g : GEx) : List Wire × Nat :=
+  match p with
+  | .fresh => (heap ++ [enc g], heap.length)
+  | .reused =>
+      match heap with
+      | [] => ([enc g], 0)
+      | _ :: rest => (enc g :: rest, 0)
+
+/-- marshal the messages of a stream one after the other -/
+def sendAll (p : BufPolicy) : List Wire → List GEx → List Wire × List Nat
+  | heap, [] => (heap, [])
+  | heap, g :: gs =>
+      let (heap', id) := marshalInto p heap g
+      let (heap'', ids) := sendAll p heap' gs
+      (heap'', id :: ids)
+
+/-- what the transport puts on the wire when it reads the buffers after the last `Marshal` -/
+def delivered (p : BufPolicy) (gs : List GEx) : List (Option Wire) :=
+  let (heap, ids) := sendAll p [] gs
+  ids.map (fun i => heap[i]?)
+
 /-! ### Field tables consumed by the `decide` theorems of C20 -/
 
 /-- Unexported (or exported but not restored) fields that a decoder may leave alone, with
